@@ -2973,6 +2973,12 @@ static void AssembleFile_InitPass(void) {
     EnumIncrement    = 1;
     EnumCurrentValue = 0;
 
+    /* RADIX / OUTRADIX of the previous pass must not change how the
+       constants in front of them are read in this one */
+
+    RadixBase    = 10;
+    OutRadixBase = 16;
+
     strmaxcpy(CurrFileName, "INTERNAL", STRINGSIZE);
     AddFile(CurrFileName);
     CurrLine = 0;
